@@ -87,6 +87,34 @@ CHECKS["C01"] = dict(
     design="DESIGN.md section 3 / C01",
 )
 
+CHECKS["C02"] = dict(
+    technique="sibling call-site analysis of affine composition with def-use provenance of operands, polynomial identities of the affine algebra (shared with C11), structural must-apply / document-order / viewport checks",
+    text="Rendering equality is geometric and not decided. Decided necessary conditions, each of which breaks the rendering of some document when "
+         "violated: operand order at every composition site of the flattening code (own transform before context, use offset before use transform, "
+         "viewport mapping before transform attribute, child before parent), the algebra those sites rely on, every emitted piece mapped through the "
+         "context transform, document order of replacements / swaps / stroke split, nested-svg viewport parameters with the viewBox extent passed "
+         "down, child contexts derived from parent contexts.",
+    note="Not applicable to this family: point-wise equality of the paint stack (needs a renderer and sample points), Skia's transform arithmetic, shape geometry (C09).",
+    design="DESIGN.md section 3 / C02",
+)
+CHECKS["C03"] = dict(
+    technique="sibling call-site analysis (fill-rule vs clip-rule provenance, inherited attributes at from_element sites), statement-order checks of clip region construction / stacking / application, plus the C13 boolean-operation plumbing rules",
+    text="Exactness of the clipped region is Skia's. Decided necessary conditions: positional pairing of the clipped shape with fill_rule and of clip "
+         "operands with clip_rule, clip region = union of children (use resolved first) intersected with the clipPath's own clip, transformed "
+         "child > clipPath > referencing CTM, a child's clips extend the parent's and are resolved unconditionally with the child's CTM, every piece "
+         "is clipped after stroke and transform, and every rendered shape is read with inherited attributes (known finding F10 at _resolve_clip_path).",
+    note="Not applicable: set-theoretic equality at sample points. Known finding F10 in known_findings.json.",
+    design="DESIGN.md section 3 / C03",
+)
+CHECKS["C13"] = dict(
+    technique="table comparison of the Skia mapping tables, def-use / path checks of _do_pathop (operand-rule pairing, left fold, final simplify on every value return), exact-shape check of the operation wrappers, exception-handler lint over the call-graph closure",
+    text="Skia computes the regions; the check decides that Skia is asked the right question on every path: same-named fill types/builders/verbs, "
+         "operand i with rule i, left fold with fix_winding, a final simplify(fix_winding=True) before the only value return, wrappers that are exactly "
+         "the fold (no shortcut returning an operand), and no handler that could turn a Skia failure into a wrong path.",
+    note="Not applicable: that the returned interior equals the set combination at sample points (Skia internals).",
+    design="DESIGN.md section 3 / C13",
+)
+
 NOT_APPLICABLE = {}
 
 
